@@ -59,6 +59,11 @@ def judge(byc, res):
             if in_search_stage(r.inp, lf.path) or array_has_matching_ref(r.inp, lf.path, rx):
                 continue                                           # open
             names = [p for p in lf.path[3:] if isinstance(p, str) and not p.startswith("$")]
+            # the name of a $facet output / of a $rankFusion input pipeline labels a whole sub-pipeline; whether it counts as a field name
+            # above the literals of that sub-pipeline is left open by the statement
+            labels = [p for i, p in enumerate(lf.path) if i > 3 and isinstance(p, str) and lf.path[i - 1] in ("$facet", "pipelines")]
+            if any(rx.search(n) for n in labels) and not any(rx.search(n) for n in names if n not in labels):
+                continue                                           # open
             matches = any(rx.search(n) for n in names)
             o = _get_by_pos(r, lf)
             if o is None:
@@ -94,22 +99,34 @@ def cfgs(tier):
 
 def run(tier):
     v = common.Verdict(PID, tier, "model_checking")
-    b = common.build(need_inproc=False)
+    b = common.build()
     cs = cfgs(tier)
+    vocab_fields, _ = l3.vocabulary_fields(b)
     rp = l3.Replay(b, v, cs, "checks.c14:judge", variants=2 if tier == "quick" else 3)
     fields = '{"uf1", "zzsecretA", "uf1.zzsecretA", "zzsecretAx"}'
     gm = {"GMDepth": "5", "GMWide": "1", "GMMaxFld": "2", "GMMaxArr": "1", "GMTail": "1", "GMSeeds": "<< >>", "GMFields": fields,
           "GMSlots": '{"filter","update","updates","deletes","documents","pipeline"}',
           "GMKinds": '{"plain","email","num","bool","date","oid","b64"}'}
-    plan = [("RedactorGM", gm),
-            ("RedactorGM", dict(gm, GMDepth="7", GMWide="0", GMMaxArr="2", GMKinds='{"plain","num"}'))]   # representative keys only, deeper: wrapper chains
+    two = '{"uf1", "zzsecretA"}'
+    plan = [("RedactorGM", dict(gm, GMFields=two, GMKinds='{"plain","num","date"}')),                               # one deviation from the representative keys
+            ("RedactorGM", dict(gm, GMDepth="4", GMKinds='{"plain","num"}')),                                        # ... with the dotted / one-word-prefix names, shallower
+            ("RedactorGM", dict(gm, GMDepth="6", GMWide="0", GMMaxArr="2", GMKinds='{"plain","num"}'))]              # representative keys only, deeper: wrapper chains
     # every entry of the operator tables in every context (after a leading $search stage, in sub-pipelines, $facet ...) with no matching name
     # anywhere: everything is must-keep
     plan.append(("RedactorTW", {"TWShapeKinds": '{"s","os","as"}'}))
     plan.append(("RedactorGM", dict(gm, GMDepth="4", GMFields='{"uf1", "uf1.$.zzsecretA", "uf1.$[].zzsecretA", "uf1.$[m].zzsecretA"}',
                                     GMSlots='{"update","updates"}', GMKinds='{"plain","email","num","date"}')))
+    # every grammar edge in every walker context (sub-pipelines, $facet, search operators, pipeline-style updates ...) with the MATCHING name
+    # wherever the path needs a user field: the literal at its end must be redacted
+    dump = l3.grammar_dump()
+    seeds_m, _ = l3.grammar_seeds(dump, field="zzsecretA", field_after_every_edge=True)
+    plan.append(("RedactorGM", dict(gm, GMDepth="0", GMSeeds=seeds_m, GMKinds='{"plain","email","num","date"}')))
+    # a user field spelled like a word of the implementation's CURRENT operator tables, directly below a field whose name matches: every word,
+    # in every context that admits two nested user fields
+    plan.append(("RedactorGM", dict(gm, GMDepth="5", GMWide="0", GMMaxFld="2", GMFields=vocab_fields[:-1] + ', "zzsecretA"}', GMBelow=vocab_fields,
+                                    GMKinds='{"plain","num"}', GMSlots='{"filter","documents","update","pipeline"}')))
     if tier == "thorough":
-        plan = [("RedactorTW", {"TWShapeKinds": "{}"}), ("RedactorGM", dict(gm, GMDepth="6", GMMaxArr="2", GMTail="2")),
+        plan = [plan[-1], ("RedactorGM", dict(gm, GMDepth="0", GMSeeds=seeds_m)), ("RedactorTW", {"TWShapeKinds": "{}"}), ("RedactorGM", dict(gm, GMDepth="6", GMMaxArr="2", GMTail="2")),
                 ("RedactorGM", dict(gm, GMDepth="8", GMWide="0", GMMaxArr="2", GMMaxFld="3", GMKinds='{"plain","num","email"}'))]
     states = trans = 0
     for mod, defs in plan:
